@@ -289,7 +289,7 @@ func c03Mutation(r *vf.Run, id string, rng *rand.Rand) {
 		}
 		blk, _ = enc.Field(blk, f, randChoice(rng))
 	}
-	kind := rng.Intn(12)
+	kind := rng.Intn(13)
 	switch kind {
 	case 0: // truncate
 		blk = blk[:rng.Intn(len(blk))]
@@ -343,6 +343,26 @@ func c03Mutation(r *vf.Run, id string, rng *rand.Rand) {
 			blk = append(blk, 0x00)
 			blk = hpackref.AppendInt(blk, 0, 7, k+2)
 			blk = append(blk, 'a', 'b', 0x00, 0x01, 'v')
+		}
+	case 12: // an integer of ten continuation octets whose value, prefix included, is 2^64 + t: arithmetic in 64 bits wraps it to t
+		first, pf := []byte{0x80, 0x40, 0x00, 0x10}[rng.Intn(4)], uint(7)
+		switch first {
+		case 0x40:
+			pf = 6
+		case 0x00, 0x10:
+			pf = 4
+		}
+		lim := uint64(1)<<pf - 1
+		t := uint64(1 + rng.Intn(int(min(61, lim-1)))) // below the prefix limit, so that t - lim really is 2^64 + t - lim
+		v := t - lim // modulo 2^64: v + lim == t + 2^64
+		blk = append(blk, first|byte(lim))
+		for k := 0; k < 9; k++ {
+			blk = append(blk, byte(v&127)|128)
+			v >>= 7
+		}
+		blk = append(blk, byte(v)) // the 64th bit
+		if first != 0x80 {
+			blk = hpackref.AppendString(blk, "v", false)
 		}
 	case 10: // string length larger than what is left
 		blk = append(blk, 0x00)
